@@ -114,6 +114,8 @@ class Gen:
         if k == 11:
             return self.kw("not") + self.operand(d - 1)
         if k == 12:
+            if rng.random() < 0.3:
+                return self.operand(d - 1) + self.kw("collate") + [(rng.choice(["nocase", "binary", "utf8_bin"]), "id", "lastop")]
             return self.operand(d - 1) + [("::", "p")] + [(rng.choice(["int", "text", "date", "bigint"]), "ty")]
         return self.paren(self.expr(d - 1))
 
